@@ -89,6 +89,7 @@ struct Sim : ClientObserver {
 
     // teardown observations (C05)
     bool teardown_done = false;
+    bool running_at_drain = false;               // the receive channel of a running client was drained at the end
     bool out_of_work_after_cancel = false;
     bool out_of_work_after_destroy = false;
     ns_t teardown_time_advance = 0;
